@@ -19,6 +19,9 @@ CATALOGUE = [
     [1244567, 654321, 21], [1334567, 654321, 21], [234567, 654321, 21],
     [1234567, 654322, 21], [1234567, 654331, 21], [1234567, 654421, 21], [1234567, 655321, 21], [1234567, 664321, 21],
     [1234567, 754321, 21], [1234567, 1654321, 21], [654321, 1234567, 21],
+    # columns / rows that differ by a power of two (what a too narrow integer or bit mask folds together): 2^16, 2^20, 2^7
+    [5, 7, 17], [65541, 7, 17], [5, 65543, 17], [131077, 7, 18], [5, 7, 18],
+    [1048581, 9, 21], [5, 9, 21], [5, 1048585, 21], [133, 9, 21],
 ]
 DIMSETS = [None, {'time': '2020'}, {'time': '2021'}, {'time': 'default'},
            {'time': '2020', 'elevation': '5'}, {'time': '2020', 'dim_level': '700'},
